@@ -261,6 +261,21 @@ func (c *monC18) After(m *Machine, s *Step) *Violation {
 		c.spent[key] = fmt.Sprintf("step %d", s.I)
 		return nil
 	}
+	// a re-authentication by remember cookie that met a backend failure inside the rotation (consuming the old token,
+	// storing the new one) did not happen: the request is nobody's, and must not be served as the cookie's user
+	if before == "" && (r.Fired == "UseRememberToken" || r.Fired == "AddRememberToken") && len(r.Calls) > 0 && r.Calls[0] == "UseRememberToken" &&
+		(op.K == "visit" || op.K == "regen" || op.K == "totpsetup" || op.K == "smssetup") {
+		firedRotation := r.Fired == "UseRememberToken" || (len(r.Calls) > 1 && r.Calls[1] == "AddRememberToken" && strings.Count(strings.Join(r.Calls, ","), "AddRememberToken") == 1)
+		if firedRotation {
+			m.flag("rotation-failed")
+			if r.Rec.ProbeRan && r.Rec.ProbeName != "open" && r.Rec.ProbeName != "" {
+				return violation("C18", sig("failed-remember-reauth-served-as-user")+":"+r.Rec.ProbeName, "the remember rotation failed at %s, yet the protected probe %s ran (saw user %q, fully authed %v)", r.Fired, r.Rec.ProbeName, r.Rec.ProbeUID, r.Rec.ProbeFull)
+			}
+			if r.Rec.HandlerRan && op.K != "visit" {
+				return violation("C18", sig("failed-remember-reauth-served-as-user")+":"+op.K, "the remember rotation failed at %s, yet the %s handler (a route for logged-in users) ran", r.Fired, op.K)
+			}
+		}
+	}
 	// a remember cookie is spent as soon as storage consumed its token - also when the request then
 	// failed (the replacement could not be stored): it must not open a session later
 	if rot := m.rotationOwner(s); rot != "" && before == "" {
@@ -387,6 +402,8 @@ func c18Scenarios() []c18Scenario {
 		{Name: "logout", Setup: []Op{login0}, Target: Op{K: "logout"}},
 		{Name: "remember-reauth", Setup: []Op{{K: "login", A: 0, Src: "pw", SA: 0, F: true}, {K: "newsess"}}, Target: Op{K: "visit", S: "/p/none"},
 			After: []Op{{K: "setcookie", B: 1, Src: "cookie", SA: 0, SN: 1}, {K: "visit", B: 1, S: "/p/none"}}},
+		{Name: "remember-reauth-full-route", Setup: []Op{{K: "login", A: 0, Src: "pw", SA: 0, F: true}, {K: "newsess"}}, Target: Op{K: "visit", S: "/p/full"}},
+		{Name: "remember-reauth-regen", Setup: []Op{{K: "login", A: 0, Src: "pw", SA: 0, F: true}, {K: "newsess"}}, Target: Op{K: "regen"}},
 		{Name: "protected-visit", Setup: []Op{login0}, Target: Op{K: "visit", S: "/p/full"}},
 		{Name: "lock-middleware", Setup: []Op{login0}, Target: Op{K: "visit", S: "/p/lock"}},
 		{Name: "confirm-middleware", Setup: []Op{login0}, Target: Op{K: "visit", S: "/p/confirm"}},
